@@ -66,22 +66,6 @@ Proof.
   apply in_or_app. left. apply in_or_app. right. left. reflexivity.
 Qed.
 
-(* the three kinds of entries of a well-shaped mapping *)
-Lemma WS_entry m k v : WS m -> In (k, v) m ->
-  (exists n, v = Scalar n /\ key_ok k) \/
-  (exists s, v = Mapping [(ANY, Mapping s)] /\ key_ok k /\ WS s /\ denm s <> []) \/
-  (exists s, k = ANY /\ v = Mapping s /\ WS s /\ denm s <> []).
-Proof.
-  intros W H. inversion W as [? _ F]; subst. specialize (F _ H).
-  inversion F as [k' n K|k' s K Ws Ds|s Ws Ds]; subst.
-  - left. exists n. split; [reflexivity|exact K].
-  - right. left. exists s. split; [reflexivity|]. split; [exact K|]. split; [exact Ws|exact Ds].
-  - right. right. exists s. split; [reflexivity|]. split; [reflexivity|]. split; [exact Ws|exact Ds].
-Qed.
-
-Lemma WS_nodup m : WS m -> NoDup (map fst m).
-Proof. intros W. inversion W; assumption. Qed.
-
 (* ---- unfolding update_from ---- *)
 Lemma upd_nil f ps m : update_from f ps (Mapping m) [] = take_all ps m.
 Proof. destruct f; reflexivity. Qed.
